@@ -24,6 +24,11 @@ GNext ==
   \/ \E m \in 1 .. KI : PeerWrite(m) /\ H([o |-> "pwrite", n |-> m])
   \/ PeerClose /\ H([o |-> "pshut"])
   \/ PeerAbort /\ H([o |-> "pabort"])
+  \/ Bind /\ H([o |-> "bind"])
+  \/ Unbind /\ H([o |-> "unbind"])
+  \* shrinkSendBuffer() / shrinkRecvBuffer() change nothing in the model (only where the bytes are stored)
+  \/ sendq # <<>> /\ UNCHANGED vars /\ H([o |-> "shrinks"])
+  \/ rbuf # <<>> /\ UNCHANGED vars /\ H([o |-> "shrinkr"])
   \/ WritableCb /\ hist' = Append(hist, Pass(IF cb' # 0 THEN "complete" ELSE "none"))
   \/ CompleteExit /\ UNCHANGED hist
   \/ RunNextDelete /\ hist' = Append(hist, Pass("none"))
